@@ -117,6 +117,12 @@ def history_suite(ctx):
             ctx.feature('bare-hydrogen-fragment')
         if not case.get('all_atom', True):
             continue
+        if r0 <= 0.9 and rng.random() < 0.3 and '}.{' in case['s']:
+            # several molecules in one description (the base graph twice, joined by a zero-order bond): the open chain
+            # ends on both sides of the '.' stay open through every constructor
+            b, rest = case['s'].split('}.{', 1)
+            case = dict(case, s=b + '.' + b[1:] + '}.{' + rest)
+            ctx.feature('history:several-molecules')
         s = case['s']
         legacy = case.get('legacy', True)
         base_str, frag_str = s.split('}.', 1)
@@ -238,6 +244,12 @@ def run(ctx):
         r = i % 3
         case = gen_mol.cut_case(rng) if r == 0 else (gen_mol.polymer_case(rng, big=(i % 12 == 1)) if r == 1 else
                                                      gen_levels.hier_case(rng, share_p=rng.choice([0, 0.4])))
+        if i % 6 == 4 and '}.{' in case['s']:
+            # several molecules in one description: the base graph written twice, joined by a zero-order bond — the
+            # chain ends left open on both sides of the '.' stay open, whichever constructor the input goes through
+            base, rest = case['s'].split('}.{', 1)
+            case = dict(case, s=base + '.' + base[1:] + '}.{' + rest, ctor=('graph', 'fragment-dicts', 'string')[(i // 6) % 3])
+            ctx.feature('several-molecules')
         suites.run_resolve_case(ctx, 'resolve', case, oracle=numbering_oracle)
     history_suite(ctx)
     hashseed_suite(ctx)
